@@ -82,6 +82,9 @@ fixed("C09", "escaped-control-1f", "1c29a0f", "$['\\u001F'] was rejected", {"mod
 # ---- C11
 fixed("C11", "search-version1-flag", "a16ddc1", "search() alone passed regex.VERSION1 (set operators inside classes): search(@, '[a||b]') did not find '|' while match() did",
       {"module": "vtools.props.c11", "func": "r_dot", "args": {}})
+# ---- C17
+fixed("C17", "nondeterministic-not-exhaustive", "33d3940", "children queued 'for later' were appended to the end of the queue: for $..* on [[[0]],[1],[2]] permitted orderings (e.g. $[0][0] visited between $[1] and $[2]) were produced by no outcome of the random choices",
+      {"module": "vtools.props.c17", "func": "r_exhaustive", "args": {"query": "$..*", "doc": "[[[0]], [1], [2]]"}})
 # ---- C18
 fixed("C18", "nondeterministic-depth-check", "6df72eb", "nondeterministic descent raised JSONPathRecursionError for data nested exactly max_recursion_depth deep on some random outcomes (scalars counted, '>=') and missed too-deep containers visited immediately",
       {"module": "vtools.props.c18", "func": "r_limit", "args": {"limit": 3, "doc": [[[1]]], "mode": "nondet", "tapes": 64}})
